@@ -4,6 +4,7 @@ package c11
 import (
 	"fmt"
 	"testing"
+	"time"
 
 	"github.com/welllog/golib/listz"
 	"pgregory.net/rapid"
@@ -28,7 +29,7 @@ type listCase struct {
 	Trace   []int       `json:",omitempty"` // explicit decision list (exhaustive tier / replay)
 }
 
-func genProgram(t *rapid.T, maxThreads, maxCalls int, probeOK bool) listCase {
+func genProgram(t *rapid.T, maxThreads, maxCalls int, probeOK bool, timed ...bool) listCase {
 	c := listCase{Initial: rapid.IntRange(0, 3).Draw(t, "initial")}
 	nt := rapid.IntRange(2, maxThreads).Draw(t, "threads")
 	probe := probeOK && rapid.Bool().Draw(t, "probe")
@@ -36,13 +37,20 @@ func genProgram(t *rapid.T, maxThreads, maxCalls int, probeOK bool) listCase {
 		n := rapid.IntRange(1, maxCalls).Draw(t, "ncalls")
 		var th []call
 		for j := 0; j < n; j++ {
-			k := rapid.SampledFrom([]string{"push", "push", "pop", "pop", "popwait0", "len", "popwaitinf"}).Draw(t, "k")
+			kinds := []string{"push", "push", "pop", "pop", "popwait0", "len", "popwaitinf"}
+			if len(timed) > 0 && timed[0] {
+				// real-time variants (raced tier only): a timed PopWait and a delay that moves pushes towards its deadline
+				kinds = append(kinds, "popwaitT", "popwaitT", "sleep", "sleep")
+			}
+			k := rapid.SampledFrom(kinds).Draw(t, "k")
 			if k == "popwaitinf" && probe {
 				k = "pop"
 			}
 			switch k {
 			case "push":
 				th = append(th, call{K: k, V: 100*(i+1) + j})
+			case "sleep":
+				th = append(th, call{K: k, V: rapid.IntRange(1, 34).Draw(t, "ms")})
 			default:
 				th = append(th, call{K: k})
 			}
@@ -84,8 +92,12 @@ func sane(c listCase) bool {
 				}
 				seen[cl.V] = true
 				pushes++
-			case "pop", "popwait0":
+			case "pop", "popwait0", "popwaitT":
 				pops++
+			case "sleep":
+				if cl.V < 0 || cl.V > 100 {
+					return false
+				}
 			case "popwaitinf":
 				pops++
 				inf++
@@ -113,7 +125,7 @@ func waitsGuaranteed(c listCase) bool {
 			switch cl.K {
 			case "push":
 				pushes++
-			case "pop", "popwait0":
+			case "pop", "popwait0", "popwaitT":
 				pops++
 			case "popwaitinf":
 				pops++
@@ -145,13 +157,17 @@ func execThread(l *listz.SyncList[int], th int, calls []call, rec *recorder) {
 			l.Push(cl.V)
 			o.Return = conc.Tick()
 			rec.ops = append(rec.ops, o)
-		case "pop", "popwait0", "popwaitinf":
+		case "sleep":
+			time.Sleep(time.Duration(cl.V) * time.Millisecond)
+		case "pop", "popwait0", "popwaitinf", "popwaitT":
 			o := lin.Op{Thread: th, Kind: "pop", Call: conc.Tick()}
 			switch cl.K {
 			case "pop":
 				o.Ret, o.OK = l.Pop()
 			case "popwait0":
 				o.Ret, o.OK = l.PopWait(0)
+			case "popwaitT":
+				o.Ret, o.OK = l.PopWait(25 * time.Millisecond)
 			default:
 				o.Ret, o.OK = l.PopWait(-1)
 			}
